@@ -60,6 +60,10 @@ const (
 	KArr2   = "arr2"   // [2]string
 	KArr3   = "arr3"   // [3]int
 	KIDs    = "ids"    // chains.IDs ([]int64)
+	KLevels = "levels" // []chains.Level (named uint8 elements)
+	KLevArr = "levarr" // [2]chains.Level
+	KTinys  = "tinys"  // []chains.Tiny (named int8)
+	KPorts  = "ports"  // []chains.Port (named uint16)
 	KNames  = "names"  // chains.Names ([]string)
 	KTuples = "tuples" // [][]interface{}
 )
@@ -67,7 +71,7 @@ const (
 // IsSlice reports whether v expands to several placeholders.
 func (v Val) IsSlice() bool {
 	switch v.K {
-	case KStrs, KInts, KI64s, KF64s, KAnys, KArr2, KArr3, KIDs, KNames, KTuples:
+	case KStrs, KInts, KI64s, KF64s, KAnys, KArr2, KArr3, KIDs, KNames, KTuples, KLevels, KLevArr, KTinys, KPorts:
 		return true
 	}
 	return false
@@ -188,6 +192,26 @@ func (v Val) Go() interface{} {
 		return [2]string{v.L[0].S, v.L[1].S}
 	case KArr3:
 		return [3]int{int(v.L[0].I), int(v.L[1].I), int(v.L[2].I)}
+	case KLevels:
+		out := make([]Level, len(v.L))
+		for i, e := range v.L {
+			out[i] = Level(e.I)
+		}
+		return out
+	case KLevArr:
+		return [2]Level{Level(v.L[0].I), Level(v.L[1].I)}
+	case KTinys:
+		out := make([]Tiny, len(v.L))
+		for i, e := range v.L {
+			out[i] = Tiny(e.I)
+		}
+		return out
+	case KPorts:
+		out := make([]Port, len(v.L))
+		for i, e := range v.L {
+			out[i] = Port(e.I)
+		}
+		return out
 	case KIDs:
 		out := make(IDs, len(v.L))
 		for i, e := range v.L {
